@@ -61,8 +61,8 @@ class BodyFraming(Harness):
     exhaustive = False
     # genuine inconsistencies of the unchanged tree on three fixture messages (known findings; any other message must pass)
     known = {
-        "F44": lambda i: i["message"] in ("fixture:one/14", "fixture:problems/2"),
-        "F45": lambda i: i["message"] == "fixture:one/19",
+        "F44": lambda i, bad: i["message"] in ("fixture:one/14", "fixture:problems/2") and bad["clause"] == "all lines end in CRLF",
+        "F45": lambda i, bad: i["message"] == "fixture:one/19" and bad["clause"] == "BODY[HEADER] + BODY[TEXT] == BODY[]",
     }
 
     def inputs(self, tier, seed):
@@ -113,4 +113,131 @@ class BodyFraming(Harness):
             return {"observed": "bare CR or LF", "clause": "all lines end in CRLF"}
         if i5.get("BODY[]") != full:
             return {"observed": {"copy": len(i5.get("BODY[]", b"")), "orig": len(full)}, "clause": "a COPY returns bytes identical to its source"}
+        return None
+
+
+# ---------------------------------------------------------------------------------------------------------------
+# C07 (c, e): strings of ENVELOPE
+QUOTED_RE = re.compile(rb'"([^"\\\r\n]|\\[\\"])*"')
+
+
+def unquote(q: bytes) -> bytes:
+    return re.sub(rb"\\(.)", rb"\1", q[1:-1])
+
+
+class QuoteString(Harness):
+    """fetch.quote_string against the quoted-string grammar: all byte strings over a 7-letter alphabet up to a length."""
+    scope = "every byte string over {\", \\, CR, LF, a, space, 0xE9} of length <= 5 (quick) / <= 7 (thorough)"
+    exhaustive = True
+
+    def inputs(self, tier, seed):
+        yield {"max_len": 5 if tier == "quick" else 7}
+
+    def check(self, inp):
+        import itertools
+
+        from asimap.fetch import quote_string
+
+        alpha = [b'"', b"\\", b"\r", b"\n", b"a", b" ", b"\xe9"]
+        for n in range(inp["max_len"] + 1):
+            for tup in itertools.product(alpha, repeat=n):
+                v = b"".join(tup)
+                q = quote_string(v)
+                if not QUOTED_RE.fullmatch(q):
+                    return {"observed": {"value": repr(v), "result": repr(q)}, "clause": "quote_string yields a well-formed quoted string"}
+                if unquote(q) != v.replace(b"\r", b"").replace(b"\n", b""):
+                    return {"observed": {"value": repr(v), "result": repr(q)}, "clause": "unquoting gives the value back (CR/LF removed)"}
+        return None
+
+
+def header_values(tier, seed):
+    import random
+
+    rnd = random.Random(seed)
+    fixed = [
+        "", "plain", 'say "hi"', "back\\slash", 'both \\" at once', "folded\r\n line", "bare\nLF", "bare\rCR", "caf\xe9 au lait",
+        "日本語", "日本 " * 40, 'quote " and 日本', "=?utf-8?q?already_encoded?=", "trailing\\", '"', "\\", "\\\\\"\"",
+        "x" * 300, "é" * 120 + " 世界" * 30,
+    ]
+    yield from fixed
+    alpha = ['"', "\\", "\r", "\n", "a", " ", "\xe9", "世", "?", "=", "_"]
+    for _ in range(300 if tier == "quick" else 5000):
+        yield "".join(rnd.choice(alpha) for _ in range(rnd.randint(0, 12 if rnd.random() < 0.8 else 120)))
+
+
+class EnvelopeStrings(Harness):
+    scope = "encode_header / header_or_nil on 19 hand-picked header values and 300 (quick) / 5000 (thorough) random ones over quotes, backslashes, CR, LF, 8-bit and non-latin-1 letters"
+    exhaustive = False
+
+    def inputs(self, tier, seed):
+        for h in header_values(tier, seed):
+            yield {"hdr": h}
+
+    def from_model(self, model):
+        h = model.get("hdr")
+        return {"hdr": h} if isinstance(h, str) else None
+
+    def check(self, inp):
+        from email.header import decode_header, make_header
+        from email.message import EmailMessage
+
+        from asimap.fetch import encode_header, header_or_nil
+
+        h = inp["hdr"]
+        q = encode_header(h)
+        if not QUOTED_RE.fullmatch(q):
+            return {"observed": {"result": repr(q)}, "clause": "quoted strings contain no raw CR, LF, unescaped double quote or backslash"}
+        plain = h.replace("\r", "").replace("\n", "")
+        got = unquote(q).decode("latin-1")
+        try:
+            h.encode("latin-1")
+            latin = True
+        except UnicodeEncodeError:
+            latin = False
+        if latin:
+            if got != plain:
+                return {"observed": {"result": repr(q)}, "clause": "a latin-1 header value is given back verbatim"}
+        else:
+            try:
+                dec = str(make_header(decode_header(got)))
+            except Exception as e:  # noqa: BLE001
+                dec = f"<undecodable: {e!r}>"
+            lossy = h.encode("latin-1", errors="replace").decode("latin-1").replace("\r", "").replace("\n", "")
+            same = dec == plain
+            if not same and plain != h:
+                # email.header turns CR/LF inside the value into white space between encoded words: compare the visible text
+                def strip_ws(t):
+                    return re.sub(r"[ \t\r\n]+", "", t)
+                same = strip_ws(dec) == strip_ws(h)
+            if not same and got != lossy:
+                return {"observed": {"result": repr(q), "decoded": dec}, "clause": "decoding the string gives back the header value"}
+        m = EmailMessage()
+        if header_or_nil(m, "subject") != b"NIL":
+            return {"observed": "missing field not NIL", "clause": "a missing field is NIL"}
+        return None
+
+
+class NameQuoting(Harness):
+    """client.quoted and the LIST line built from it: every name over a small alphabet gives a well-formed quoted string that decodes back."""
+    scope = "every mailbox name over {\", \\, a, space, /, 0xE9} of length <= 5 (quick) / <= 7 (thorough): client.quoted and Authenticated._fmt_list_response"
+    exhaustive = True
+
+    def inputs(self, tier, seed):
+        yield {"max_len": 5 if tier == "quick" else 7}
+
+    def check(self, inp):
+        import itertools
+
+        from asimap.client import Authenticated, quoted
+
+        alpha = ['"', "\\", "a", " ", "/", "\xe9"]
+        for n in range(inp["max_len"] + 1):
+            for tup in itertools.product(alpha, repeat=n):
+                name = "".join(tup)
+                q = quoted(name).encode("latin-1")
+                if not QUOTED_RE.fullmatch(q) or unquote(q).decode("latin-1") != name:
+                    return {"observed": {"name": name, "quoted": repr(q)}, "clause": "quoted(name) is a well-formed quoted string that decodes to name"}
+                line = Authenticated._fmt_list_response(name, {"\\HasNoChildren"}, None).encode("latin-1")
+                if line != b'* LIST (\\HasNoChildren) "/" ' + q + b"\r\n":
+                    return {"observed": {"name": name, "line": repr(line)}, "clause": "LIST sends the name as that quoted string"}
         return None
